@@ -218,6 +218,12 @@ def threadSlots (c : Nat) : List Nat → Block → Mem → Block × Mem
   | [], ref, m => (ref, m)
   | i :: is, ref, m => threadSlots c is (c, i) ((ref, some (c, i)) :: m)
 
+/-- the byte offsets a loop `for (e = first; e < last; e += step)` visits (`step > 0`); with the regenerated bounds
+    `growFirst/growStep/growEnd` of `Pool::grow` these are the offsets of the slots `1 … elements-1` that `threadSlots`
+    is run on below (theorem `grow_threads_exactly_the_slots`) -/
+def growLoopOffsets (first step last : Nat) : List Nat :=
+  (List.range ((last - first + step - 1) / step)).map fun k => first + k * step
+
 /-- `grow()`: `chunks_ = newChunk; ref = slot 0; head_ = ref; <loop>; ref->next_ = 0;` -/
 def igrow (E : Nat) (p : IPool) : IPool :=
   let c := p.chunks.length
